@@ -61,3 +61,27 @@ package langserver
 //@ func (*LspServer).TextDocumentSignatureHelp
 //@   props C01
 //@ end
+
+// ---- C06 / C11 / C04: what the handlers do with the occurrences found ----
+// references: the k-th answer is the k-th occurrence found (none dropped or reordered below the cap),
+// converted by LocToRange (C04 contract: lines shifted to 0-based, columns copied).
+//@ func (*LspServer).TextDocumentReferences
+//@   props C06 C04
+//@   at call append#0 before assert[C06,C04,kth-answer-is-kth-occurrence] len(locList) == i && 0 <= i && i < len(referenVecs)
+//@        && (wfLoc(referenVecs[i].Loc.StartLine, referenVecs[i].Loc.StartColumn, referenVecs[i].Loc.EndLine, referenVecs[i].Loc.EndColumn) ==>
+//@            arg1[0].Range.Start.Line == referenVecs[i].Loc.StartLine - 1 && arg1[0].Range.Start.Character == referenVecs[i].Loc.StartColumn
+//@            && arg1[0].Range.End.Line == referenVecs[i].Loc.EndLine - 1 && arg1[0].Range.End.Character == referenVecs[i].Loc.EndColumn)
+//@   loop range:referenVecs invariant [C06,C04] len(locList) == rangeindex + 1
+//@ end
+
+// rename: every edit replaces the range of one found occurrence by the new name and is filed under
+// the document of that occurrence.
+//@ func (*LspServer).TextDocumentRename
+//@   props C11 C04
+//@   at call append#0 before assert[C11,C04,edit-is-new-name-at-an-occurrence] streq(arg1[0].NewText, vs.NewName)
+//@        && (wfLoc(referVarInfo.Loc.StartLine, referVarInfo.Loc.StartColumn, referVarInfo.Loc.EndLine, referVarInfo.Loc.EndColumn) ==>
+//@            arg1[0].Range.Start.Line == referVarInfo.Loc.StartLine - 1 && arg1[0].Range.Start.Character == referVarInfo.Loc.StartColumn
+//@            && arg1[0].Range.End.Line == referVarInfo.Loc.EndLine - 1 && arg1[0].Range.End.Character == referVarInfo.Loc.EndColumn)
+//@   at call append#0 before assert[C11,edit-filed-under-the-occurrence-document] arg0 == edit.Changes[uriStr] && hits("GetFileDocumentURI#0") == hits("LocToRange#0")
+//@   loop range:referenVecs invariant [C11] hits("GetFileDocumentURI#0") == hits("LocToRange#0")
+//@ end
